@@ -5,6 +5,7 @@ pub mod decode;
 pub mod desc;
 pub mod driver;
 pub mod hwwalk;
+pub mod memop;
 pub mod physmem;
 pub mod prng;
 pub mod world;
